@@ -1191,7 +1191,7 @@ Proof.
 Qed.
 
 Lemma mini_backend_ok :
-  backend_ok mutf8_ok (list (bytes * mval)) mcmd mdecode mexec mfast_get mfast_set mbatch_get mbatch_set
+  backend_ok mutf8_ok mstate mcmd mdecode mexec mfast_get mfast_set mbatch_get mbatch_set
              mkind CGet CSet.
 Proof.
   refine (conj _ (conj _ (conj _ (conj _ (conj _ (conj _ (conj _ _))))))).
@@ -1601,20 +1601,20 @@ End Tx.
 
 
 (* ------------------------------------------------------------------ WATCH over the mini backend *)
-Lemma mexec_get_read_only : forall (s : list (bytes * mval)) k, fst (mexec s (CGet k)) = s.
-Proof. intros s k. cbn [mexec]. destruct (lookup k s) as [[]|]; reflexivity. Qed.
+Lemma mexec_get_read_only : forall (s : mstate) k, fst (mexec s (CGet k)) = s.
+Proof. intros s k. cbn [mexec]. destruct (vget s k) as [[]|]; reflexivity. Qed.
 
 (* a GET reply identifies the value of a key unless the key holds a non-string at both instants *)
 Lemma get_reply_vs_value sW sE k : nonstring_at_both sW sE k = false ->
   (mget_reply sW k = mget_reply sE k <-> value_of sW k = value_of sE k).
 Proof.
   unfold nonstring_at_both, holds_nonstring, mget_reply, get_reply, value_of. cbn [mexec].
-  destruct (lookup k sW) as [[x|x|x|x|x]|]; destruct (lookup k sE) as [[z|z|z|z|z]|]; cbn [snd andb];
+  destruct (vget sW k) as [[x|x|x|x|x]|]; destruct (vget sE k) as [[z|z|z|z|z]|]; cbn [snd andb];
     intros H; try discriminate H; split; intros E; try discriminate E; try reflexivity; try congruence.
 Qed.
 
 Section MiniTwoClients.
-  Variables (y : sys (list (bytes * mval)) mcmd) (ks : list bytes) (vw vm ve : resp)
+  Variables (y : sys mstate mcmd) (ks : list bytes) (vw vm ve : resp)
             (sched1 sched2 : list (bool * resp)).
   Hypothesis Hidle : txa _ _ y = tx_idle mcmd.
   Hypothesis Hw : mdecode vw = inl (CWatch ks).
@@ -1666,9 +1666,9 @@ Definition refute_sched : list (bool * resp) :=
     (true,  frame [b_ "EXEC"]) ].
 
 Lemma watch_nonstring_refuted_witness :
-  let sW := sst _ _ (mrun2 (msys_init []) (firstn 2 refute_sched)) in
-  let sE := sst _ _ (mrun2 (msys_init []) (firstn 5 refute_sched)) in
-  let yF := mrun2 (msys_init []) refute_sched in
+  let sW := sst _ _ (mrun2 (msys_init m0) (firstn 2 refute_sched)) in
+  let sE := sst _ _ (mrun2 (msys_init m0) (firstn 5 refute_sched)) in
+  let yF := mrun2 (msys_init m0) refute_sched in
   nonstring_at_both sW sE (b_ "k") = true /\
   value_of sE (b_ "k") <> value_of sW (b_ "k") /\
   last (outa _ _ yF) RNilArr = RArr [RSimple (str "OK")] /\
@@ -1679,8 +1679,8 @@ Lemma nonvacuous_c05 :
   let A (l : list string) := (true, frame (map str l)) in
   let B (l : list string) := (false, frame (map str l)) in
   let body := [A ["MULTI"]; A ["INCR"; "n"]; A ["LPUSH"; "n"; "a"]; A ["SET"; "j"; "1"]; A ["EXEC"]]%string in
-  let y1 := mrun2 (msys_init []) (app [A ["WATCH"; "k"]; B ["SET"; "k"; "x"]]%string body) in
-  let y2 := mrun2 (msys_init []) (app [A ["WATCH"; "k"]; B ["GET"; "k"]]%string body) in
+  let y1 := mrun2 (msys_init m0) (app [A ["WATCH"; "k"]; B ["SET"; "k"; "x"]]%string body) in
+  let y2 := mrun2 (msys_init m0) (app [A ["WATCH"; "k"]; B ["GET"; "k"]]%string body) in
   last (outa _ _ y1) R_OK = RNilArr /\ value_of (sst _ _ y1) (str "j") = None /\
   last (outa _ _ y2) R_OK = RArr [RInt 1; WRONGTYPE; RSimple (str "OK")] /\
   value_of (sst _ _ y2) (str "j") = Some (VStr (str "1")).
@@ -1690,9 +1690,9 @@ Lemma first_watch_decides_c05 :
   let A (l : list string) := (true, frame (map str l)) in
   let B (l : list string) := (false, frame (map str l)) in
   let tail := [A ["MULTI"]; A ["SET"; "j"; "1"]; A ["EXEC"]]%string in
-  let y1 := mrun2 (msys_init []) (app [B ["SET"; "k"; "a"]; A ["WATCH"; "k"]; B ["SET"; "k"; "b"]; A ["WATCH"; "k"]]%string tail) in
-  let y2 := mrun2 (msys_init []) (app [B ["SET"; "k"; "a"]; A ["WATCH"; "k"]; B ["SET"; "k"; "b"]; A ["WATCH"; "h"; "k"; "k"]]%string tail) in
-  let y3 := mrun2 (msys_init []) (app [B ["SET"; "k"; "a"]; A ["WATCH"; "k"]; A ["UNWATCH"]; B ["SET"; "k"; "b"]; A ["WATCH"; "k"]]%string tail) in
+  let y1 := mrun2 (msys_init m0) (app [B ["SET"; "k"; "a"]; A ["WATCH"; "k"]; B ["SET"; "k"; "b"]; A ["WATCH"; "k"]]%string tail) in
+  let y2 := mrun2 (msys_init m0) (app [B ["SET"; "k"; "a"]; A ["WATCH"; "k"]; B ["SET"; "k"; "b"]; A ["WATCH"; "h"; "k"; "k"]]%string tail) in
+  let y3 := mrun2 (msys_init m0) (app [B ["SET"; "k"; "a"]; A ["WATCH"; "k"]; A ["UNWATCH"]; B ["SET"; "k"; "b"]; A ["WATCH"; "k"]]%string tail) in
   last (outa _ _ y1) R_OK = RNilArr /\ value_of (sst _ _ y1) (str "j") = None /\
   last (outa _ _ y2) R_OK = RNilArr /\ value_of (sst _ _ y2) (str "j") = None /\
   last (outa _ _ y3) R_OK = RArr [RSimple (str "OK")] /\ value_of (sst _ _ y3) (str "j") = Some (VStr (str "1")).
